@@ -738,7 +738,11 @@ func checkReadHeaderInfo(w *World, r *Report, rh *ssa.Function) {
 				if _, isRet := s.Instrs[len(s.Instrs)-1].(*ssa.Return); isRet && s == b.Succs[0] {
 					continue // the error return
 				}
-				exits = append(exits, e.termOf(iff.Cond).String())
+				ve := newTermEnv(w)
+				ve.valueHelpers = true // the blank-line test may sit in a small predicate helper
+				ts := ve.termOf(iff.Cond).String()
+				ts = strings.Replace(ts, `eq(strings.Trim(#0(bufio.Reader.ReadString(param:bufio.Reader, 10)), " "), "\n")`, `eq("\n", strings.Trim(#0(bufio.Reader.ReadString(param:bufio.Reader, 10)), " "))`, 1)
+				exits = append(exits, ts)
 			}
 		}
 	}
